@@ -773,12 +773,27 @@ impl Parser {
 
     fn parse_function(&mut self, function: Function) -> Result<Expr, String> {
         let is_boolean_function = function.is_boolean_function();
+        let takes_no_arguments = matches!(
+            function,
+            Function::CurrentDate
+                | Function::CurrentUid
+                | Function::CurrentUser
+                | Function::CurrentGid
+                | Function::CurrentGroup
+                | Function::Random
+        );
         let mut function_expr = Expr::function(function);
 
         let mut curly_mode = false;
         if let Some(lexem) = self.next_lexem() {
             if lexem != Lexem::Open && lexem != Lexem::CurlyOpen {
                 if is_boolean_function {
+                    return Ok(function_expr);
+                }
+
+                if takes_no_arguments {
+                    // the brackets are optional: the lexem belongs to whatever follows
+                    self.drop_lexem();
                     return Ok(function_expr);
                 }
 
